@@ -50,9 +50,10 @@ def niloop (P : NProb n m p K) (R : IParams K) : ℕ → ISt n K → ISt n K
       | .inr s' => s'
     else s
 
-/-- the whole second phase, with its safeguard on the violation -/
+/-- the whole second phase: the step scaled back onto the trust region, with the safeguard on the violation -/
 def nimprove (P : NProb n m p K) (R : IParams K) (fuel : ℕ) (s : ISt n K) : Fin n → K :=
-  if violation P (niloop P R fuel s).step > violation P s.step then s.step else (niloop P R fuel s).step
+  if violation P (rescale R P.delta (niloop P R fuel s).step) > violation P s.step then s.step
+  else rescale R P.delta (niloop P R fuel s).step
 
 /-- does this pass end the first loop on the trust-region boundary (the last `else` of its body)? -/
 def nBoundary (P : NProb n m p K) (Q : NParams n m K) (s : NSt n m K) : Bool :=
